@@ -181,6 +181,9 @@ func Render(c Cfg, admOn bool) []byte {
 		"logging": obj{"logs": logs},
 		"apps":    apps,
 	}
+	if c.Stor.Key != 0 {
+		top["storage"] = renderGuest(Mod{c.Stor.Fault, c.Stor.Key}, 102, 0, "module", "verif_probe")
+	}
 	switch c.Top {
 	case 1:
 		top["bogus"] = 1
@@ -406,6 +409,13 @@ func Abstract(js []byte) string {
 			return bad()
 		}
 		c.Logs = append(c.Logs, m)
+	}
+	if st, ok := top["storage"]; ok {
+		m, ok := abstractGuest(st, "module", "verif_probe")
+		if !ok || m.Key == 0 {
+			return bad()
+		}
+		c.Stor = m
 	}
 	apps, ok := top["apps"].(obj)
 	if !ok {
